@@ -12,7 +12,7 @@ def c03_binding_grid():
         for na in range(0, 5):
             ps = pnames[:np_]
             avs = [Argv(f"\\{k}") for k in range(1, min(na, 4) + 1)] + ([Argv("\\")] if na > 0 else [])
-            body = [Probe(1), Arr(*[Id(x) for x in ps], *(avs if na >= np_ else []), *( [Argv("\\0")] if na >= np_ else []))]
+            body = [Probe(1), Arr(*[Id(x) for x in ps], *avs, Argv("\\0"))]
             args = [Int(10 + k) for k in range(na)]
             progs.append(("arity", [Asg("f", Fn(ps, body)), Call(Id("f"), args)]))
             progs.append(("arity-spread", [Asg("f", Fn(ps, body)), Asg("xs", Arr(*args)), Call(Id("f"), [Spread(Id("xs"))])]))
